@@ -31,15 +31,15 @@ fn tier_name(t: Tier) -> &'static str {
 /// number of generated histories per (property, tier)
 fn default_runs(prop: &str, tier: Tier) -> u64 {
     let q = match prop {
-        "C18" => 10_000,
-        "C01" | "C02" => 300_000,
-        "C13" | "C17" => 350_000,
-        "C03" | "C04" | "C05" | "C12" | "C16" => 500_000,
-        _ => 600_000,
+        "C18" => 20_000,
+        "C01" | "C02" => 600_000,
+        "C13" | "C17" => 700_000,
+        "C03" | "C04" | "C05" | "C12" | "C16" => 1_000_000,
+        _ => 1_200_000,
     };
     match tier {
         Tier::Quick => q,
-        Tier::Thorough => q * 6,
+        Tier::Thorough => q * 5,
     }
 }
 
@@ -117,7 +117,8 @@ fn distill(args: &[String]) -> i32 {
             break;
         }
         let mut t = gen::gen(prop, seed, i, tier);
-        if t.events.len() > max_events {
+        if t.events.len() > max_events || t.events.iter().any(|e| e.op.code == crate::ops::Code::Fill) {
+            // (macro events make thousands of calls: too slow for an interpreter)
             continue;
         }
         t.faults.clear();
@@ -229,6 +230,24 @@ pub fn note_fault(fault: u64) {
             use std::io::Seek;
             let _ = f.seek(std::io::SeekFrom::Start(0));
             let _ = f.write_all(format!("{:020} {:020}\n", run, fault).as_bytes());
+        }
+    })
+}
+
+/// liveness signal for the supervisor's stall monitor during long harness-side work (shrinking)
+pub fn heartbeat() {
+    thread_local! {
+        static BEAT: std::cell::Cell<u64> = const { std::cell::Cell::new(0) };
+    }
+    let b = BEAT.with(|c| {
+        c.set(c.get() + 1);
+        c.get()
+    });
+    PROGRESS_FILE.with(|p| {
+        if let Some((f, run)) = p.borrow_mut().as_mut() {
+            use std::io::Seek;
+            let _ = f.seek(std::io::SeekFrom::Start(0));
+            let _ = f.write_all(format!("{:020} {:020} {:020}\n", run, 0, b).as_bytes());
         }
     })
 }
@@ -518,6 +537,10 @@ fn wait_limited(mut child: std::process::Child, limit_s: u64) -> Option<std::pro
 }
 
 fn run_replay_child(path: &str) -> (ReplayOutcome, String) {
+    run_replay_child_limit(path, 30)
+}
+
+fn run_replay_child_limit(path: &str, limit_s: u64) -> (ReplayOutcome, String) {
     let child = std::process::Command::new(self_exe())
         .arg("replay-inner")
         .arg(path)
@@ -526,11 +549,11 @@ fn run_replay_child(path: &str) -> (ReplayOutcome, String) {
         .spawn();
     let o = match child {
         Err(_) => return (ReplayOutcome::Error, String::new()),
-        Ok(c) => wait_limited(c, 120),
+        Ok(c) => wait_limited(c, limit_s),
     };
     match o {
         // a replay that does not terminate reproduces a hang
-        None => (ReplayOutcome::Crashed, "REPRODUCED (the replay did not terminate within 120 s and was killed)\n".to_string()),
+        None => (ReplayOutcome::Crashed, format!("REPRODUCED (the replay did not terminate within {} s and was killed)\n", limit_s)),
         Some(o) => {
             let s = String::from_utf8_lossy(&o.stdout).to_string();
             match o.status.code() {
@@ -555,20 +578,23 @@ fn shrink_crash(v: &Value, tmp: &str) -> Value {
         if std::fs::write(&path, serde_json::to_string(&t).unwrap()).is_err() {
             return false;
         }
-        matches!(run_replay_child(&path).0, ReplayOutcome::Crashed)
+        // (the longest legitimate run takes a few seconds: a candidate still running after 8 s hangs)
+        matches!(run_replay_child_limit(&path, 8).0, ReplayOutcome::Crashed)
     };
+    let started = Instant::now();
     let mut tests = 0u32;
     let events = |x: &Value| x["trace"]["events"].as_array().cloned().unwrap_or_default();
     if !crashes(&best, &mut tests) {
         return best; // not reproducible as a crash: leave as is (the confirmation step decides)
     }
     let mut chunk = (events(&best).len() / 2).max(1);
-    while tests < 400 {
+    // bounded: at most 400 candidates and one minute
+    while tests < 400 && started.elapsed().as_secs() < 60 {
         let mut i = 0;
         let mut progressed = false;
         loop {
             let ev = events(&best);
-            if i >= ev.len() || tests >= 400 {
+            if i >= ev.len() || tests >= 400 || started.elapsed().as_secs() >= 60 {
                 break;
             }
             let mut ne = ev.clone();
@@ -691,9 +717,37 @@ fn check(args: &[String]) -> i32 {
     // stderr of a worker is small (panic hook is quiet); draining it after exit is safe
     let hard_limit = deadline_s + 60;
     let t0 = Instant::now();
+    // stall monitor: a worker whose progress file (rewritten before every run) has not changed for
+    // STALL_S seconds is stuck inside one run: kill it now instead of waiting for the deadline
+    let stall_s = std::env::var("CACHESIM_STALL_S").ok().and_then(|s| s.parse::<u64>().ok()).unwrap_or(30);
+    let mut stalled: BTreeSet<u64> = BTreeSet::new();
+    {
+        let mut last: Vec<(String, Instant)> = children.iter().map(|_| (String::new(), Instant::now())).collect();
+        loop {
+            let mut all_done = true;
+            for (i, (w, _, _, out, child)) in children.iter_mut().enumerate() {
+                if let Ok(Some(_)) = child.try_wait() {
+                    continue;
+                }
+                all_done = false;
+                let cur = std::fs::read_to_string(format!("{}.progress", out)).unwrap_or_default();
+                if cur != last[i].0 {
+                    last[i] = (cur, Instant::now());
+                } else if last[i].1.elapsed().as_secs() >= stall_s && !stalled.contains(w) {
+                    let _ = child.kill();
+                    stalled.insert(*w);
+                }
+            }
+            if all_done || t0.elapsed().as_secs() >= hard_limit {
+                break;
+            }
+            std::thread::sleep(std::time::Duration::from_millis(50));
+        }
+    }
     for (w, from, to, out, child) in children {
         let left = hard_limit.saturating_sub(t0.elapsed().as_secs()).max(1);
         let o: Result<std::process::Output, String> = match wait_limited(child, left) {
+            Some(_) if stalled.contains(&w) => Err("killed".into()),
             Some(o) => Ok(o),
             None => Err("killed".into()),
         };
